@@ -41,7 +41,7 @@ class Runner:
     def __init__(self, exe, env, wrapper=()):
         self.exe, self.env, self.wrapper = exe, env, list(wrapper)
 
-    def run(self, rounds, pre=(), timeout=120):
+    def run(self, rounds, pre=(), timeout=300):
         """rounds: list of (position_line, go_line, needs_stop, pre_lines). Returns (ok, kind, where, stderr_tail, lines_sent)."""
         errf = tempfile.TemporaryFile()
         p = subprocess.Popen(self.wrapper + [self.exe], stdin=subprocess.PIPE, stdout=subprocess.PIPE, stderr=errf, env=self.env, bufsize=0)
@@ -169,7 +169,7 @@ def grammar(tier, exe_rel, bookdir):
                     "go depth 1000 movetime 2000"],
         "long": ["go depth 1", "go depth 2", "go depth 4", "go movetime 50", "go infinite"],
         "big": ["go depth 1", "go depth 2", "go movetime 50", "go infinite", "SEARCHMOVES"],
-        "mid": ["go depth 1", "go depth 3", "go depth 6", "go movetime 50", "go infinite", "SEARCHMOVES", "go"],
+        "mid": ["go depth 1", "go depth 3", "go movetime 50", "go infinite", "SEARCHMOVES"] + ([] if q else ["go depth 6", "go"]),
     }
     sessions = []
     for name, pos, cls in P:
